@@ -332,7 +332,7 @@ def check_branch_family(chk, it, tabs, tier='quick'):
     return n
 
 
-def check_ignore_equivalence(chk, it):
+def check_ignore_equivalence(chk, it, rule_dead='R03.3'):
     """every instruction: ignore mode emits nothing, keeps the stack, consumes the same immediates"""
     n = 0
     for row in oracle.ROWS:
@@ -395,6 +395,21 @@ def check_ignore_equivalence(chk, it):
                        '%s consumes immediates %r in dead code but %r in live code: the decoder loses synchronisation after dead code'
                        % (row['name'], shape, sorted(live_logs)), site)
             chk.expect(p.state['w']['ignore'] == 1, 'R03.3', 'ignore-stays:' + row['name'], '%s leaves ignore mode' % row['name'], site)
+    # branches in dead code may name labels of dead blocks, which the writer does not track: their depth can reach or exceed the number of
+    # live labels (`return; block; ...; br_table 0 1; end` is valid).  Dead branches with such depths must be skipped like any other dead
+    # instruction - no label lookup, no failure, no abort
+    for name, imm in (('br', {'imm0': 3}), ('br_if', {'imm0': 7}), ('br_table', {'labels': [0, 5], 'default': 2}), ('br_table', {'labels': [], 'default': 1})):
+        row = oracle.BY_NAME[name]
+        stack = ['i64'] + [p if p != 'any' else 'i32' for p in row['params']]
+        toks = templates.tokens_for(row, imm)
+        for p in it.explore(templates.dispatch_setup(it, toks, stack, 0, 0, 1)):
+            n += 1
+            chk.expect(p.ret == 1 and not p.aborted and p.state['sb']['_text'].render() == '' and p.state['ts']['length'] == len(stack), rule_dead,
+                       'dead-branch-beyond-live-labels:%s%r' % (name, sorted(imm.items())),
+                       '%s %r in dead code with one live label: the translator %s; a dead branch may refer to labels of dead blocks, which are '
+                       'not on the label stack - it must be skipped without looking its labels up'
+                       % (name, imm, 'stops (%s)' % p.aborted if p.aborted else 'fails / emits %r' % p.state['sb']['_text'].render()[:60]),
+                       'dispatch/' + name + ':dead-labels')
     chk.require(n >= 150, 'ignore-mode equivalence covered only %d instruction paths' % n)
 
 
@@ -458,7 +473,7 @@ def local_context_with(it, params, groups):
     return module, function
 
 
-def check_local_groups(chk, it, tabs):
+def check_local_groups(chk, it, tabs, rule='R03.5'):
     """R03.5 over locals vectors with empty groups (valid, e.g. `0 x i32, 1 x i64`), many groups and no parameters"""
     L = tabs['letter']
     shapes = [([], [('i32', 0), ('i64', 1)]), (['i64'], [('i32', 0), ('i64', 1)]), (['i32'], [('i64', 2), ('f32', 0), ('f64', 1)]),
@@ -468,15 +483,15 @@ def check_local_groups(chk, it, tabs):
         types = list(params) + [t for t, n in groups for _ in range(n)]
         label = 'params=%r,locals=%r' % (params, groups)
         for k, t_ in enumerate(types):
-            tp = one(chk, run_script(it, script(('local.get', {'imm0': k})), ['i64'], module=module, function=function), 'local.get', 'R03.5', 'wasmLocalsDeclarationsGetType')
+            tp = one(chk, run_script(it, script(('local.get', {'imm0': k})), ['i64'], module=module, function=function), 'local.get', rule, 'wasmLocalsDeclarationsGetType')
             if tp is None:
                 continue
             m = re.fullmatch(r's(\w)1\s*=\s*l%d;\s*' % k, tp.text())
-            chk.expect(m is not None and m.group(1) == L[t_] and tp.stack_after == ['i64', t_], 'R03.5', 'local-type[%s,#%d]' % (label, k),
+            chk.expect(m is not None and m.group(1) == L[t_] and tp.stack_after == ['i64', t_], rule, 'local-type[%s,#%d]' % (label, k),
                        'local %d of a function with %s has type %s: local.get must read l%d into a %s slot; emitted %r, stack %r'
                        % (k, label, t_, k, t_, tp.text(), tp.stack_after), 'wasmLocalsDeclarationsGetType')
         tp = run_script(it, script(('local.get', {'imm0': len(types)})), ['i64'], module=module, function=function)
-        chk.expect(all(not t.ok for t in tp), 'R03.5', 'local-index-checked[%s]' % label,
+        chk.expect(all(not t.ok for t in tp), rule, 'local-index-checked[%s]' % label,
                    'local.get %d of a function with only %d locals (%s) is translated' % (len(types), len(types), label), 'wasmLocalsDeclarationsGetType')
 
 
